@@ -2,7 +2,7 @@
 import os, json
 import vlib
 from engine import Run, replay_event
-from fam_tower import TOWER, key_of, class_of, confirm_factory
+from fam_tower import TOWER, key_of, class_of, confirm_factory, tower_machine
 
 RULE = ("cases = TLC-enumerated component-shape families for Fq2/Fq6/Fq12 (zero/one/minus-one/boundary/pseudo-random components, "
         "subfield, one-hot and sparse shapes) x every operation x alias pattern, all Frobenius powers 0..13, sparse multiplicands with "
@@ -36,6 +36,12 @@ def run(tier):
         run.drive(TOWER, cfg, ["random", vlib.seed() * 31 + i, nrand, out]); traces.append(out)
     fails = run.validate(TOWER, traces, timeout=3000)
     run.count_classes(traces, class_of)
+    # Tier A from the source text: the straight-line tower functions of the tree under test, executed on a toy field against the definitions
+    tm_cases, tm_fails, tm_unsupported = tower_machine(run, tier, with_alias=False)
+    for c in tm_cases: run.classes.add(("tm", c["cls"], c["name"], c.get("alias"), c["op"]))
+    fails += tm_fails
+    run.extra["source_extracted_functions_executed"] = len(set((c["cls"], c["name"]) for c in tm_cases))
+    run.extra["source_functions_not_straight_line"] = tm_unsupported
     # Fq2::compare inherits the Montgomery-residue order of Fq::compare: that rule is C02's known finding, not gated here
     fails = [(e, l) for e, l in fails if not (e.get("op") == "ext.cmp" and l == ["cmp.integer-order"])]
     run.classify(fails, key_of, confirm_factory(run))
